@@ -511,6 +511,55 @@ func c08RMW(c *Ctx) {
 		}
 	})
 	r.Floor("O-3", "write calls", len(writes), 1)
+	// 4b. success is reported only through the write: a constant-nil error is
+	// returned only after a write whose own error was tested nil on every
+	// path; returning the write's error directly is the other accepted form
+	if ei := errorIndex(fn); ei >= 0 {
+		succ := map[[2]int]bool{}
+		isWriteErr := map[ssa.Value]bool{}
+		for _, w := range writes {
+			ev := errValue(w)
+			if ev == nil {
+				continue
+			}
+			isWriteErr[ev] = true
+			s1, _ := nilTests(ev)
+			for e := range s1 {
+				succ[e] = true
+			}
+		}
+		nRet := 0
+		var classify func(v ssa.Value, at *ssa.BasicBlock, d int) bool
+		classify = func(v ssa.Value, at *ssa.BasicBlock, d int) bool {
+			switch x := v.(type) {
+			case *ssa.Const:
+				if !x.IsNil() {
+					return true
+				}
+				return !ssau.ReachableAvoidingEdges(fn, at, succ)
+			case *ssa.Phi:
+				if d > 4 {
+					return true
+				}
+				for i, e := range x.Edges {
+					if !classify(e, x.Block().Preds[i], d+1) {
+						return false
+					}
+				}
+				return true
+			}
+			return true // the write's own error, or a failure being passed on
+		}
+		for _, b := range fn.Blocks {
+			ret, ok := b.Instrs[len(b.Instrs)-1].(*ssa.Return)
+			if !ok || ei >= len(ret.Results) {
+				continue
+			}
+			nRet++
+			r.Check(classify(ret.Results[ei], b, 0), "O-3", fmt.Sprintf("%s#success-only-after-write:%s", fk, c17ExitName(c, fn, ret)), c.P.Pos(ret.Pos()), "a nil error is returned only after the notebook was written", "the save reports success on a path that never wrote the notebook: the entry given is not what a reload yields")
+		}
+		r.Floor("O-3", "returns of the save function examined", nRet, 2)
+	}
 	// 5. failed read / parse never reaches a write
 	if readCall != nil {
 		// the read helper's failure returns before any write, and inside the helper
